@@ -191,7 +191,7 @@ fn native_sqpack_reassembly() {
     println!("NATIVE native_sqpack_reassembly cases={cases}");
 }
 
-//@unit props=C18 label=B tier=quick native=1 fn=sqpack::data::SqPackData::read_from_offset bound="by execution on temporary dat files: one standard (3 blocks), one texture (2 mips) and one model entry (2 LODs), each followed by 1 KiB of slack: every truncation and 7 single-byte corruptions per byte of the entry's file-info header and of its first two block headers, every 61st byte elsewhere"
+//@unit props=C18 label=B tier=quick native=1 fn=sqpack::data::SqPackData::read_from_offset bound="by execution on temporary dat files: one standard (3 blocks), one texture (2 mips) and one model entry (2 LODs), each followed by 1 KiB of slack: every truncation and 7 single-byte corruptions per byte of the entry's file-info header and of its first two block headers, every 61st byte elsewhere (thorough tier: every 3rd)"
 //@desc damaged dat entries (truncated anywhere, any file-info, block-table, size-table or block-header byte damaged) yield None or data, never a panic
 #[test]
 fn native_sqpack_damaged_nopanic() {
@@ -211,7 +211,7 @@ fn native_sqpack_damaged_nopanic() {
     for e in [&std_e, &tex_e, &mdl_e] {
         let hdr = u32::from_le_bytes(e[0..4].try_into().unwrap()) as usize;
         assert!(SqPackData::from_existing("/nonexistent/physis.dat0").is_none(), "a missing dat file is an ordinary failure");
-        s.sweep(e, hdr + 288, 61, &f);
+        s.sweep(e, hdr + 288, if native_thorough() { 3 } else { 61 }, &f);
     }
     let _ = std::fs::remove_file(&path);
     s.finish("native_sqpack_damaged_nopanic");
